@@ -1027,6 +1027,7 @@ def main():
         cases.append(gen_case(chk.rng, i))
     impls, results = run_cases(chk, cases)
     distinct, hist, reported = set(), {"codec": 0, "model": 0, "buffer": 0, "node_kinds": {}, "models": [], "buffers": []}, set()
+    queue = []
     for c, im, probs in zip(cases, impls, results):
         hist[c["kind"]] += 1
         if c["kind"] == "codec":
@@ -1047,9 +1048,15 @@ def main():
             if full in reported:
                 continue
             reported.add(full)
-            chk.violation(full, msg, {"case": c, "problems": probs[:6], "traceback": im.get("traceback"), "correspondence": "harness/c09.py vs Model.JsonCodec.data_to_json"}, found_input=is_oracle)
-        if len(reported - {RESERVED_KEY_SIG, LEGACY_SIG}) >= 4:
-            break
+            queue.append((full, msg, {"case": c, "problems": probs[:6], "traceback": im.get("traceback"), "correspondence": "harness/c09.py vs Model.JsonCodec.data_to_json"}, is_oracle))
+    # statement-level oracle failures (concrete failing inputs) are reported first; model-only disagreements go into the remaining slots
+    emitted = 0
+    for q_sig, q_msg, q_replay, q_found in sorted(queue, key=lambda q: not q[3]):
+        if q_sig not in {RESERVED_KEY_SIG, LEGACY_SIG}:
+            if emitted >= 4:
+                continue
+            emitted += 1
+        chk.violation(q_sig, q_msg, q_replay, found_input=q_found)
     chk.coverage["evaluations"] = len(cases)
     chk.coverage["traces_validated_against_impl"] = len(cases)
     chk.coverage["distinct_nontrivial"] = len(distinct)
